@@ -1,9 +1,12 @@
 from check import run_diff_property
+import lib
 
 CFG = dict(
-    streams=[('rw', 2500, 40000)],
-    oracle_ops={'rwspec05'},
-    ops_filter={'rw', 'rwspec05'},
+    streams=[('rw', 2500, 40000), ('e2e', 150, 2500)],
+    oracle_ops={'rwspec05', 'e2e'},
+    twophase_ops={'e2e'},
+    project={'e2e': lib.proj_e2e({'ja3', 'ja4', 'h2'})},
+    ops_filter={'rw', 'rwspec05', 'e2e'},
     rule=("HTTPHandler.ServeHTTP in-process with a recording transport: default three injectors plus 0-2 custom ones (incl. a "
           "repeated name and odd spellings), each scripted to value / empty value / error, crossed with client header lines "
           "under every injected name in random letter case, 0-2 repetitions, empty values, plus hop-by-hop, forwarding and "
